@@ -81,6 +81,16 @@ fn main() {
                     };
                     trand(&mut g, &mut r, &cfg);
                 }
+                "vsmall" => {
+                    exhaustive = true;
+                    if thorough {
+                        vsmall(&mut g, 5, 3, shard, nshards);
+                        vsmall(&mut g, 4, 4, shard, nshards);
+                    } else {
+                        vsmall(&mut g, 4, 3, shard, nshards);
+                    }
+                }
+                "srand" => srand(&mut g, &mut r, if thorough { 3000 } else { 150 }, if thorough { 120 } else { 30 }),
                 "tmid" => tmid(&mut g, &mut r, if thorough { 40000 } else { 2500 }),
                 "dsmall" => {
                     exhaustive = true;
